@@ -75,10 +75,24 @@ class SolverContract:
         return out
 
     def symbols(self):
-        s = set(self.params.values())
+        s = set()
+        def walk(v):
+            if isinstance(v, sp.Basic): s.update(v.free_symbols)
+            elif isinstance(v, (list, tuple)):
+                for q in v: walk(q)
+        for v in self.params.values(): walk(v)
         s |= set(self.pos) if isinstance(self.pos, (list, tuple)) else {self.pos}
         s.add(self.t)
         return s
+
+
+def numify(v, pt):
+    """parameter value (possibly nested, symbolic) -> JSON-able python value at the point"""
+    if isinstance(v, sp.Basic):
+        return native.pyval(alg.numeric(v, pt, 20)) if v.free_symbols else native.pyval(v)
+    if isinstance(v, tuple): return {'__tuple__': [numify(q, pt) for q in v]}
+    if isinstance(v, list): return [numify(q, pt) for q in v]
+    return native.pyval(v)
 
 
 def eval_bool(c, pt):
@@ -109,7 +123,7 @@ def translation_validation(sc, case, paths, K=3, rtol=1e-8):
             except Exception:
                 continue
         if chosen is None: continue
-        params = {k: native.pyval(alg.numeric(v, pt, 20)) if isinstance(v, sp.Basic) and v.free_symbols else native.pyval(v) for k, v in sc.kwargs(case).items()}
+        params = {k: numify(v, pt) for k, v in sc.kwargs(case).items()}
         pos = [float(alg.numeric(x, pt)) for x in sc.pos] if isinstance(sc.pos, (list, tuple)) else float(alg.numeric(sc.pos, pt))
         reqs.append({'cls': sc.cls, 'params': params, 'points': [pos], 't': float(alg.numeric(sc.t, pt))})
         exp.append((pt, chosen))
